@@ -2,54 +2,17 @@
 //! framing layer rejects an oversized declared frame instead of waiting for it).
 use crate::common::*;
 use crate::props::c11;
-use crate::props::c12::{self, transport_client, CI};
-use opcua::core::comms::message_chunk::{MessageChunkType, MessageIsFinalType};
-use opcua::server::comms::tcp_transport::TcpTransport;
-use opcua::types::*;
+use crate::props::c12::{srv_conn, transport_client};
 
 pub struct C10;
 pub static P: C10 = C10;
 
 fn gen_srv(rng: &mut Rng, tier: Tier, out: &mut Vec<String>) {
-    let l0 = c12::get_endpoints_bytes().len();
-    let mc = *rng.pick(&[0u64, 1, 2, 5, 5]);
-    let mm = *rng.pick(&[0u64, 100, 1000, 8192, 327675]);
-    out.push(format!("reset srv {} {} {}", mc, mm, l0));
-    let mut seq = 2u64;
-    let nmsgs = rng.range(1, 4);
-    for _ in 0..nmsgs {
-        // a message of n chunks, n around the limit
-        let n = match rng.weighted(&[4, 3, 2, 1]) {
-            0 => 1 + rng.below(3),
-            1 => (mc as i64 + rng.range(-1, 2)).max(1) as u64,
-            2 => 1 + rng.below(12),
-            _ => if tier == Tier::Thorough { 2000 } else { 40 },
-        };
-        let req = 10 + rng.below(50);
-        // sizes around maxMsg / n
-        let per = if mm > 0 && rng.chance(1, 2) { (mm / n).max(24) } else { 24 + l0 as u64 + rng.below(100) };
-        for i in 0..n {
-            let size = match rng.weighted(&[6, 2, 1, 1]) {
-                0 => per,
-                1 => (per as i64 + rng.range(-2, 2)).max(24) as u64,
-                2 => 24 + rng.below(4),
-                _ => 24 + l0 as u64 + rng.below(3),
-            };
-            let mut s = seq;
-            if rng.chance(1, 40) {
-                s = (s as i64 + rng.range(-1, 1)).max(0) as u64;
-            }
-            let f = if i + 1 == n {
-                if rng.chance(1, 10) { "C" } else { "F" }
-            } else if rng.chance(1, 30) {
-                "A"
-            } else {
-                "C"
-            };
-            out.push(format!("chunk 1:{}:{} {} {}", s, req, f, size));
-            seq += 1;
-        }
-    }
+    let l = srv_conn::lens();
+    let mc = *rng.pick(&[0u64, 1, 2, 4, 5]);
+    let mm = *rng.pick(&[0u64, 200, 1000, 8192, 65536, 327675]);
+    out.push(srv_conn::reset_line(mc, mm));
+    srv_conn::gen_case(rng, &l, srv_conn::Profile::Buffering, mc, mm, tier == Tier::Thorough, out);
 }
 
 fn gen_rx(rng: &mut Rng, out: &mut Vec<String>) {
@@ -95,17 +58,8 @@ impl Prop for C10 {
     }
 }
 
-struct Srv {
-    t: TcpTransport,
-    closed: bool,
-    stream_off: usize,
-    body: Vec<u8>,
-    max_chunks: usize,
-    max_msg: usize,
-}
-
 struct R {
-    srv: Option<Srv>,
+    srv: Option<srv_conn::Conn>,
     rx: c11::R,
     rx_max: usize,
     rx_bytes: usize,
@@ -115,28 +69,31 @@ struct R {
 impl Runner for R {
     fn step(&mut self, toks: &[&str]) -> (String, Verdict) {
         match toks {
-            ["reset", "srv", mc, mm, _l0] => {
-                let mut t = c12::new_transport();
-                let (_, r) = t.verif_process_hello(c12::hello(), 65536, 65536);
-                let mut ok = r.is_ok();
-                for c in c12::open_request_chunks(1, 1, 0, false) {
-                    ok &= t.verif_process_chunk(c).1.is_ok();
-                }
-                if !ok {
-                    return ("err setup".to_string(), Verdict::fail("setup", "-", "handshake failed"));
-                }
-                let max_chunks: usize = mc.parse().unwrap();
-                let max_msg: usize = mm.parse().unwrap();
-                {
-                    let sc = t.verif_secure_channel();
-                    let mut sc = sc.write();
-                    let mut o = sc.decoding_options();
-                    o.max_chunk_count = max_chunks;
-                    o.max_message_size = max_msg;
-                    sc.set_decoding_options(o);
-                }
-                self.srv = Some(Srv { t, closed: false, stream_off: 0, body: c12::get_endpoints_bytes(), max_chunks, max_msg });
+            ["reset", "conn", mc, mm, ..] => {
+                self.srv = Some(srv_conn::Conn::new(mc.parse().unwrap_or(0), mm.parse().unwrap_or(0)));
                 ("ok".to_string(), Verdict::Ok)
+            }
+            ["setlast", _] | ["hel", _] | ["ack"] | ["ch", ..] => {
+                let Some(conn) = self.srv.as_mut() else {
+                    return ("bad-op".to_string(), Verdict::Ok);
+                };
+                let Some((line, info)) = conn.step(toks) else {
+                    return ("bad-op".to_string(), Verdict::Ok);
+                };
+                // the property, on the accessor: never more chunks / bytes than the limits, whatever
+                // the chunk type, the flags, or the state of the handshake
+                let class = match &info.chunk {
+                    Some((ty, _, _, _)) => format!("{}-chunk", ty),
+                    None => "-".to_string(),
+                };
+                let v = if conn.max_chunks > 0 && info.pend_len > conn.max_chunks {
+                    Verdict::fail("pending_chunks_bounded", &class, format!("{} chunks held, limit {}", info.pend_len, conn.max_chunks))
+                } else if conn.max_msg > 0 && info.pend_bytes > conn.max_msg {
+                    Verdict::fail("pending_bytes_bounded", &class, format!("{} bytes held, limit {}", info.pend_bytes, conn.max_msg))
+                } else {
+                    Verdict::Ok
+                };
+                (line, v)
             }
             ["reset", "cli", mp, ch] => {
                 self.cli = Some(transport_client::Cli::new(mp.parse().unwrap(), ch.parse().unwrap()));
@@ -150,56 +107,6 @@ impl Runner for R {
                 self.rx_max = mm.parse().unwrap();
                 self.rx_bytes = 0;
                 self.rx.step(toks)
-            }
-            ["chunk", ci, f, n] => {
-                let (Some(s), Some(Some(c)), Some(fin), Ok(size)) =
-                    (self.srv.as_mut(), c12::parse_ci(ci), c12::fin_of(f), n.parse::<usize>())
-                else {
-                    return ("bad-op".to_string(), Verdict::Ok);
-                };
-                if size < 24 {
-                    return ("bad-op".to_string(), Verdict::Ok);
-                }
-                if s.closed {
-                    return ("err closed".to_string(), Verdict::Ok);
-                }
-                // the body stream: one GetEndpointsRequest, then zero padding
-                let blen = size - 24;
-                let body: Vec<u8> = (s.stream_off..s.stream_off + blen).map(|i| *s.body.get(i).unwrap_or(&0)).collect();
-                match fin {
-                    MessageIsFinalType::Intermediate => s.stream_off += blen,
-                    _ => s.stream_off = 0,
-                }
-                let chunk = c12::msg_chunk(c.chan, c.seq, c.req, fin, MessageChunkType::Message, &body);
-                assert_eq!(chunk.data.len(), size);
-                let (out, r) = s.t.verif_process_chunk(chunk);
-                let pend = s.t.verif_pending_chunks();
-                let bytes: usize = pend.iter().map(|c| c.data.len()).sum();
-                let tail = format!("pend={} bytes={}", pend.len(), bytes);
-                // the property, on the accessor: never more chunks / bytes than the limits
-                let class = if s.max_chunks > 0 && pend.len() > s.max_chunks {
-                    "over-chunk-count"
-                } else if s.max_msg > 0 && bytes > s.max_msg {
-                    "over-message-size"
-                } else {
-                    "-"
-                };
-                let mut v = Verdict::Ok;
-                if s.max_chunks > 0 && pend.len() > s.max_chunks {
-                    v = Verdict::fail("pending_chunks_bounded", class, format!("{} chunks held, limit {}", pend.len(), s.max_chunks));
-                } else if s.max_msg > 0 && bytes > s.max_msg {
-                    v = Verdict::fail("pending_bytes_bounded", class, format!("{} bytes held, limit {}", bytes, s.max_msg));
-                }
-                match r {
-                    Err(e) => {
-                        s.closed = true;
-                        (format!("err {} {}", e.name(), tail), v)
-                    }
-                    Ok(()) => match out.first() {
-                        Some((id, _)) => (format!("ok accepted req={} {}", id, tail), v),
-                        None => (format!("ok stored {}", tail), v),
-                    },
-                }
             }
             ["feed", h] => {
                 let n = unhex(h).map(|b| b.len()).unwrap_or(0);
